@@ -8,7 +8,7 @@
    _gs_next(c, w, D, gabriel); [oget R i] = labels_[i]; [centres R] = cluster_centers_idx_.
    [sq_mat n D]: D is n x n.  [ext_lt] is < on Z + {inf}; [ext_le a b] := not (b < a).
    All theorems hold for every n, every matrix, all weights, cut-offs and shell depths. *)
-From Verif Require Import ListX QuickShift QuickShiftP QSSession QSSessionP QSPermP.
+From Verif Require Import ListX QuickShift QuickShiftP QSSession QSSessionP QSPermP QSFast QSFastP.
 Close Scope Z_scope.
 Open Scope nat_scope.
 
@@ -310,6 +310,23 @@ Example C16_nonvacuous :
 Proof.
   cbv zeta. split; [split; [reflexivity|repeat constructor]|]. repeat split; vm_compute; reflexivity.
 Qed.
+
+(* What the correspondence evaluates for point sets of a few hundred points (Model/QSFast.v): the
+   Gabriel test walking the two rows in parallel, and the graph built ONCE per fit and handed to
+   every _gs_next call (as the code does).  Both are the model's own [gabriel] / [fit_gab] -- so all
+   theorems above apply to what is evaluated -- only cheaper under vm_compute (n^3 instead of n^4). *)
+Theorem C16_fast_model_equal :
+  forall n D w shell, sq_mat n D ->
+    gabriel_fast D = gabriel D /\ fit_gab_fast D w shell = fit_gab D w shell.
+Proof. exact (fun n D w shell HD => conj (gabriel_fast_eq n D HD) (fit_gab_fast_eq n D w shell HD)). Qed.
+Print Assumptions C16_fast_model_equal.
+
+Example C16_fast_model_nonvacuous :
+  let D := [[None; Some 1; Some 9; Some 49]; [Some 1; None; Some 4; Some 36];
+            [Some 9; Some 4; None; Some 16]; [Some 49; Some 36; Some 16; None]]%Z in
+  sq_mat 4 D /\ fit_gab_fast D [1; 3; 2; 4]%Z 1 = Some (map Some [1; 1; 1; 3]) /\
+  map row_idx (gabriel_fast D) = [[1]; [0; 2]; [1; 3]; [2]].
+Proof. cbv zeta. split; [split; [reflexivity|repeat constructor]|]. split; vm_compute; reflexivity. Qed.
 
 (* ---------------------------------------------------------------------------------------------
    Sessions (Model/QSSession.v): estimator objects as a state machine.  [qrun S ops] runs a history
